@@ -1,10 +1,63 @@
-//! C39 — not built yet.
+//! C39 Data refresh deadline never exceeds contributing objects' expiry.
+
+use proptest::prelude::*;
 
 use crate::core::*;
+use crate::erpki::*;
+use crate::erun::*;
+use crate::escen::*;
 
-pub const IMPLEMENTED: bool = false;
+fn scenario(words: &[u16]) -> Scenario {
+    let p = Profile { max_cas: 7, max_tals: 2, max_objs: 4, versions: 1, fault_16: 2, obj_faults: true, cert_faults: false, pp_faults: false, vary_cfg: true, modules: 3 };
+    let mut sc = single_run(words, &p);
+    let mut d = D::new(words);
+    for _ in 0..11 {
+        d.next();
+    }
+    // independent expiry for every element: 1 h .. 400 d
+    let times = [3600i64 * 2, 3600 * 30, 86400 * 9, 86400 * 400, 3600 * 5, 86400 * 40];
+    for ca in sc.cas.iter_mut() {
+        ca.not_after = d.pick(&times);
+        for v in ca.versions.iter_mut() {
+            v.next_off = d.pick(&times);
+            v.crl_next_off = d.pick(&times);
+            v.ee_after_off = d.pick(&times);
+            for o in v.objs.iter_mut() {
+                o.not_after = d.pick(&times);
+            }
+        }
+    }
+    sc
+}
 
-pub fn run(_ctx: &Ctx, _rep: &mut Report, _replay: Option<&serde_json::Value>) {
-    eprintln!("C39: check not implemented");
-    std::process::exit(2);
+fn prop(sc: &Scenario, info: &mut CaseInfo) -> Verdict {
+    let j = Judge { id: "C39", sound: false, complete: true, refresh: true, ..Default::default() };
+    let mut on_chain = false;
+    let v = judge(&j, sc, info, |_, obs| {
+        if let (Some(b), Some(l)) = (obs.exp.refresh_bound, obs.exp.refresh_min_leaf) {
+            if b < l {
+                on_chain = true;
+            }
+        }
+        None
+    });
+    info.nontrivial = on_chain;
+    if on_chain {
+        info.class("minimum_on_chain_element");
+    } else {
+        info.class("minimum_on_leaf_or_none");
+    }
+    v
+}
+
+pub fn run(ctx: &Ctx, rep: &mut Report, replay: Option<&serde_json::Value>) {
+    rep.rule("E-rpki single-run trees where every notAfter / nextUpdate (TA, CA certificates, manifest EE, manifest, CRL, object EE) is drawn independently from {2 h, 5 h, 30 h, 9 d, 40 d, 400 d}; some objects are invalid or of a disabled type; oracle: snapshot.refresh() <= min over every contributing object of (certificates on its chain, manifest EE / manifest nextUpdate / CRL nextUpdate of every publication point on the chain, its own EE notAfter), and refresh is present whenever something contributed; non-trivial = the minimum sits on a chain element (CA certificate, manifest, CRL), not on a leaf EE certificate; distinct by serialised scenario");
+    rep.assume("only the upper bound is checked; a lower refresh is allowed by the property");
+    ctx.shrink_iters.store(150, std::sync::atomic::Ordering::Relaxed);
+    if let Some(v) = replay {
+        let t: Tagged<Scenario> = serde_json::from_value(v.clone()).expect("replay");
+        run_case(ctx, rep, &t.sub, &t.case, prop);
+        return;
+    }
+    run_prop_par(ctx, rep, "single", ctx.tier.pick(320, 8000), 8, || genome(200).prop_map(|w| scenario(&w)), prop);
 }
